@@ -143,6 +143,16 @@ Theorem C02_cfold_preserves : forall (S : Type) rd lv call fold_all e,
 Proof. exact (fun S rd lv call => cfold_preserves_l S rd lv call cfold_folds_to_spec_l). Qed.
 Print Assumptions C02_cfold_preserves.
 
+(* rewrite_under_context: soundness of a rewriting is closed under the contexts of the fragment
+   (operand of a call, operand of a cast), so it lifts from an expression to the expressions and
+   statements containing it *)
+Theorem C02_rewrite_under_context : forall (S : Type) rd lv call (f : expr -> expr),
+  (forall a s r, ev S rd lv call s a = Some r -> ev S rd lv call s (f a) = Some r) ->
+  (forall op args s r, ev S rd lv call s (BCall op args) = Some r -> ev S rd lv call s (BCall op (map f args)) = Some r) /\
+  (forall t a s r, ev S rd lv call s (Cast t a) = Some r -> ev S rd lv call s (Cast t (f a)) = Some r).
+Proof. exact context_closed. Qed.
+Print Assumptions C02_rewrite_under_context.
+
 (* peep_rule_sound, table part: every row of the two tables regenerated from of_peep.c means what
    PeepSem says (each "replace by" field is an identity of the operation for every operand of the
    type; duals are inverses / negations; a table builtin stands for its abstract operation) *)
@@ -151,41 +161,66 @@ Theorem C02_peep_rule_tables_sound :
 Proof. exact (conj ops_ok (conj bvals_slow_ok bvals_fast_ok)). Qed.
 Print Assumptions C02_peep_rule_tables_sound.
 
-(* peep_rule_sound + peep_preserves, PARTIAL.
-   Full-strength statement (NOT true of the code, refuted below):
-     forall ff e s r, ev s e = Some r -> ev s (fst (peep ff e)) = Some r.
-   Proved: the same for every run of the pass whose ghost flag is true, i.e. in which every
-   exchange of two operands (peepNegate: not (a op b) ==> b dual a; peepAdditiveOp:
-   (-a) + b ==> b - a) met `swap_ok` (both operands free of side effects, or one of them
-   independent of the state).  Every other rule - unit, zero and absorbing elements, l = r,
-   powers of two, double negation, inverse operations, and/or with a constant, cast collapse -
-   is covered unconditionally, with its side-effect guard, for expressions of any size and any
-   amount of fuel. *)
-Theorem C02_peep_preserves_partial : forall (S : Type) rd lv call ff e e',
+(* peep_preserves (with peep_rule_sound for every rule, rewrite_under_context for the fragment's
+   contexts): the peephole pass - unit, zero and absorbing elements, l = r, powers of two, double
+   negation, inverse operations, negated comparisons, negated operands, and/or with a constant,
+   cast collapse, each with the side-effect guard the C applies - preserves the value and the
+   final state of every expression, of any size, for any amount of fuel of the fixpoint loops.
+   No hypothesis on the expression or on the run. *)
+Theorem C02_peep_preserves : forall (S : Type) rd lv call ff e,
+  forall s r, ev S rd lv call s e = Some r -> ev S rd lv call s (fst (peep ff e)) = Some r.
+Proof. exact peep_preserves_full. Qed.
+Print Assumptions C02_peep_preserves.
+
+(* the same, for any fuel of peepAux, stated on the pair the model returns *)
+Theorem C02_peep_preserves_any_fuel : forall (S : Type) rd lv call ff e e',
   peep ff e = (e', true) -> forall s r, ev S rd lv call s e = Some r -> ev S rd lv call s e' = Some r.
 Proof. exact peep_preserves_l. Qed.
-Print Assumptions C02_peep_preserves_partial.
+Print Assumptions C02_peep_preserves_any_fuel.
 
-(* the two exchanges are unsound as the C guards them: concrete expression, machine and state *)
-Theorem C02_peep_negate_swap_refuted :
-  peep false ex_negate = (BCall "SIntLT" [Leaf FSInt 1 true; Var FSInt 0], false) /\
+(* peep_rule_sound for the two rules that EXCHANGE the evaluation order of operands, with the guard
+   exactly as coded after fix 159355b (both operands free of side effects; before it, one rule had
+   no guard and the other required only one operand to be free of side effects - both were wrong:
+   see the regression items below and corpus/C02/hand-peep-*.json):
+   peepNegate  not (a op b) ==> b dual a ;  peepAdditiveOp  (-a) + b ==> b - a,  a +/- (-b) ==> a -/+ b *)
+Theorem C02_peep_negate_rule_sound : forall (S : Type) rd lv call ff a e ok,
+  negate (peep_tbl ff) a = Some (e, ok) ->
+  forall s v s1, ev S rd lv call s (BCall "BoolNot" [a]) = Some (v, s1) -> ev S rd lv call s e = Some (v, s1).
+Proof. exact negate_rule_sound. Qed.
+Print Assumptions C02_peep_negate_rule_sound.
+
+Theorem C02_peep_additive_rule_sound : forall (S : Type) rd lv call ff t p l r e ok,
+  additive (peep_tbl ff) t p l r = Some (e, ok) -> (p = OpPlus \/ p = OpMinus) ->
+  forall s vl s1 vr s2 v, ev S rd lv call s l = Some (vl, s1) -> ev S rd lv call s1 r = Some (vr, s2) ->
+    in_ty_b t vl = true -> in_ty_b t vr = true -> den2 p t vl vr = Some v ->
+    ev S rd lv call s e = Some (v, s2).
+Proof. exact additive_rule_sound. Qed.
+Print Assumptions C02_peep_additive_rule_sound.
+
+(* no exchange of operands the model would call unsafe can happen (the ghost flag of Peep.v) *)
+Theorem C02_peep_flag : forall tbl fuel e, snd (peep_aux tbl fuel e) = true.
+Proof. exact peep_aux_flag. Qed.
+Print Assumptions C02_peep_flag.
+
+(* regression items of fix 159355b: the exchanges are refused when an operand has a side effect and
+   still made when none has *)
+Theorem C02_peep_swap_rules_guarded :
+  peep false ex_negate = (ex_negate, true) /\
+  peep false ex_additive = (ex_additive, true) /\
+  peep false (BCall "BoolNot" [BCall "SIntLE" [Var FSInt 0; Leaf FSInt 1 false]])
+  = (BCall "SIntLT" [Leaf FSInt 1 false; Var FSInt 0], true) /\
+  peep false (BCall "SIntPlus" [BCall "SIntNegate" [Var FSInt 1]; Leaf FSInt 2 false])
+  = (BCall "SIntMinus" [Leaf FSInt 2 false; Var FSInt 1], true) /\
   ev rS r_rd r_lv r_call 1 ex_negate = Some (0, 11) /\
-  ev rS r_rd r_lv r_call 1 (fst (peep false ex_negate)) = Some (1, 11).
-Proof. exact peep_negate_swap_refuted. Qed.
-Print Assumptions C02_peep_negate_swap_refuted.
-
-Theorem C02_peep_additive_swap_refuted :
-  peep false ex_additive = (BCall "SIntMinus" [Leaf FSInt 2 true; Leaf FSInt 1 true], false) /\
-  ev rS r_rd r_lv r_call 0 ex_additive = Some (0, 12) /\
-  ev rS r_rd r_lv r_call 0 (fst (peep false ex_additive)) = Some (0, 21).
-Proof. exact peep_additive_swap_refuted. Qed.
-Print Assumptions C02_peep_additive_swap_refuted.
+  ev rS r_rd r_lv r_call 0 ex_additive = Some (0, 12).
+Proof. exact swap_rules_guarded. Qed.
+Print Assumptions C02_peep_swap_rules_guarded.
 
 (* peep_drop_needs_pure: the operations that make peepMakeUnaryOp drop its operand have arity 0 in
    the regenerated peepBValOpInfo (the C's guard "arity 0 and operand has a side effect -> leave
    the call"); dropping an operand WITH a side effect changes the final state; the pass keeps such
    a call and drops the operand only when it has no side effect.  (That no rule ever drops an
-   effectful operand is part of C02_peep_preserves_partial: the final state is preserved.) *)
+   effectful operand is part of C02_peep_preserves: the final state is preserved.) *)
 Theorem C02_peep_drop_needs_pure :
   forallb (fun p => (arity_of p =? 0)%Z) const_ops = true /\
   ev rS r_rd r_lv (fun x s => (1, 10 * s + Z.of_nat x)) 0 ex_drop = Some (0, 3) /\
